@@ -50,6 +50,14 @@ def special(rng):
         # the tip region lies above the vertex (towards smaller y) along the bisector
         pts = [(vx, vy - d) for d in (w * 0.55, w * 0.8, w * 1.1, w * 1.4, w * 1.8, w * 2.3)]
         return src, pts
+    if k < 0.26:
+        # an open subpath that returns to its start without a closepath: two caps meet there, not a join
+        w = rng.choice([8, 10, 12])
+        ax, ay = 50.0, rng.choice([22.0, 26.0])
+        src = ('<svg xmlns="http://www.w3.org/2000/svg" viewBox="0 0 100 100"><path d="M%.0f,%.0f L80,82 L20,82 L%.0f,%.0f" fill="none" stroke="red" stroke-width="%d" '
+               'stroke-linejoin="%s" stroke-linecap="butt"/></svg>' % (ax, ay, ax, ay, w, rng.choice(["miter", "miter", "round"])))
+        pts = [(ax, ay - w * 0.35), (ax, ay - w * 0.62), (ax, ay - w * 0.8), (ax, ay - w * 1.0), (ax + 1.0, ay - w * 0.7)]
+        return src, pts
     return None
 
 
